@@ -180,7 +180,7 @@ func TestPropSubscriberManager(t *testing.T) {
 			}
 			return true
 		}
-		rt.Repeat(map[string]func(*rapid.T){
+		rt.Repeat(guard(&h.dead, map[string]func(*rapid.T){
 			"create": func(rt *rapid.T) {
 				mac := rapid.SampledFrom(idxMACs).Draw(rt, "mac")
 				has := false
@@ -238,12 +238,7 @@ func TestPropSubscriberManager(t *testing.T) {
 				delete(live, ids[i])
 				check(rt, "TerminateSession")
 			},
-			"": func(rt *rapid.T) {
-				if h.dead {
-					rt.Skip("known finding fired")
-				}
-			},
-		})
+		}))
 		cls := []string{"submgr"}
 		if moved {
 			cls = append(cls, "submgr:address-reassigned-from-other-pool")
@@ -253,7 +248,7 @@ func TestPropSubscriberManager(t *testing.T) {
 		}
 		nontrivial := nt || fa.reused || contended
 		if nontrivial {
-			cls = append(cls, "nt:reacquired-or-contended")
+			cls = append(cls, "nt:reacquired-or-contended", "nt:"+cls[0])
 		}
 		ops := h.ops
 		vstat.Case(nontrivial, h.fp(), func() any { return map[string]any{"component": "submgr", "ops": ops} }, cls...)
@@ -302,7 +297,7 @@ func TestPropStateStore(t *testing.T) {
 		st := state.NewStore(state.DefaultConfig(), zap.NewNop())
 		listedMAC := vstat.IsListed(sigStoreLeaseMAC) || vstat.IsListed(sigStoreSessMAC)
 		listedIP := vstat.IsListed(sigStoreSessIPMiss) || vstat.IsListed(sigStoreSessIPOld)
-		allowDupMAC := !listedMAC || rapid.IntRange(0, 2).Draw(rt, "allowSecondRecordPerMAC") == 0
+		allowDupMAC := !listedMAC || rapid.Bool().Draw(rt, "allowSecondRecordPerMAC")
 		allowIPUpdate := !listedIP || rapid.IntRange(0, 2).Draw(rt, "allowSessionAddressUpdate") == 0
 		var leases, sessions []*storeRec // creation order; removed entries are nil-ed
 		liveOf := func(l []*storeRec) []*storeRec {
@@ -455,7 +450,7 @@ func TestPropStateStore(t *testing.T) {
 			}
 			delete(freedIP, kind+"|"+ip)
 		}
-		rt.Repeat(map[string]func(*rapid.T){
+		rt.Repeat(guard(&h.dead, map[string]func(*rapid.T){
 			"createLease": func(rt *rapid.T) {
 				mac := rapid.SampledFrom(idxMACs).Draw(rt, "mac")
 				if hasMAC(leases, mac.String()) {
@@ -563,12 +558,7 @@ func TestPropStateStore(t *testing.T) {
 				sessions[i] = nil
 				check(rt, "DeleteSession")
 			},
-			"": func(rt *rapid.T) {
-				if h.dead {
-					rt.Skip("known finding fired")
-				}
-			},
-		})
+		}))
 		cls := []string{"statestore"}
 		if dupMAC {
 			cls = append(cls, "statestore:two-records-one-mac")
@@ -578,7 +568,7 @@ func TestPropStateStore(t *testing.T) {
 		}
 		nontrivial := nt || dupMAC
 		if nontrivial {
-			cls = append(cls, "nt:reacquired-or-contended")
+			cls = append(cls, "nt:reacquired-or-contended", "nt:"+cls[0])
 		}
 		ops := h.ops
 		vstat.Case(nontrivial, h.fp(), func() any { return map[string]any{"component": "statestore", "ops": ops} }, cls...)
@@ -630,7 +620,7 @@ func TestPropAllocationStore(t *testing.T) {
 		h := &hist{comp: "allocstore"}
 		st := allocator.NewMemoryAllocationStore()
 		type key struct{ pool, sub string }
-		has := map[key]string{}   // (pool, sub) -> ip
+		has := map[key]string{}    // (pool, sub) -> ip
 		holder := map[string]key{} // ip -> (pool, sub)
 		freedBy := map[string]key{}
 		nt, contended, changed := false, false, false
@@ -682,7 +672,7 @@ func TestPropAllocationStore(t *testing.T) {
 			}
 			return true
 		}
-		rt.Repeat(map[string]func(*rapid.T){
+		rt.Repeat(guard(&h.dead, map[string]func(*rapid.T){
 			"save": func(rt *rapid.T) {
 				k := key{rapid.SampledFrom(pools).Draw(rt, "pool"), rapid.SampledFrom(subs).Draw(rt, "sub")}
 				ip := ipOf(k.pool, rapid.IntRange(1, 4).Draw(rt, "host"))
@@ -732,12 +722,7 @@ func TestPropAllocationStore(t *testing.T) {
 				}
 				check(rt, "RemoveAllocation")
 			},
-			"": func(rt *rapid.T) {
-				if h.dead {
-					rt.Skip("known finding fired")
-				}
-			},
-		})
+		}))
 		cls := []string{"allocstore"}
 		if changed {
 			cls = append(cls, "allocstore:address-changed")
@@ -747,7 +732,7 @@ func TestPropAllocationStore(t *testing.T) {
 		}
 		nontrivial := nt || contended
 		if nontrivial {
-			cls = append(cls, "nt:reacquired-or-contended")
+			cls = append(cls, "nt:reacquired-or-contended", "nt:"+cls[0])
 		}
 		ops := h.ops
 		vstat.Case(nontrivial, h.fp(), func() any { return map[string]any{"component": "allocstore", "ops": ops} }, cls...)
